@@ -210,7 +210,7 @@ def _parse_directive_options(
         yaml_errors: list[ParseWarnings] = []
         try:
             yaml_options = yaml.safe_load(options_block or "") or {}
-        except (yaml.parser.ParserError, yaml.scanner.ScannerError):
+        except Exception:
             yaml_options = {}
             yaml_errors.append(
                 ParseWarnings(
